@@ -63,16 +63,20 @@ def tlc_coverage(module, cfg, workers=4, timeout=900):
 def model_check(chk, pid):
     quick = chk.quick
     t0 = time.time()
-    # every history up to the bound, history kept in the state; with coverage (vacuity guard)
-    cfg = "mc/MC_ObjTree_hist.cfg" if quick else "mc/MC_ObjTree_hist4.cfg"
-    cov, gen, dist = tlc_coverage("mc/MC_ObjTree.tla", cfg, workers=6)
+    # vacuity guard: a small run with -coverage must take every outcome class of at / remove
+    cov, gen, dist = tlc_coverage("mc/MC_ObjTree.tla", "mc/MC_ObjTree_cov.cfg", workers=2)
     for a in ("AtAdded", "AtRefused", "RemoveOk", "RemoveAbsent"):
         if cov.get(a, 0) == 0:
-            raise core.ToolError("vacuity: action %s of ObjTree never taken in %s (coverage %s)" % (a, cfg, cov))
-    chk.add("states", dist)
-    chk.add("transitions", gen)
-    chk.cov["mc_histories_checked"] = gen
+            raise core.ToolError("vacuity: action %s of ObjTree never taken (coverage %s)" % (a, cov))
     chk.cov["mc_action_coverage"] = cov
+    # every history up to the bound, history kept in the state
+    cfg = "mc/MC_ObjTree_hist.cfg" if quick else "mc/MC_ObjTree_hist4.cfg"
+    r = core.tlc("mc/MC_ObjTree.tla", cfg, workers=6, timeout=1500)
+    if r.violation:
+        raise core.ToolError("ObjTree violates its own invariants (specification error):\n%s" % r.violation[:3000])
+    chk.add("states", r.distinct)
+    chk.add("transitions", r.generated)
+    chk.cov["mc_histories_checked"] = r.generated
     # the complete reachable graph of registries (history hidden by VIEW)
     r = core.tlc("mc/MC_ObjTree.tla", "mc/MC_ObjTree_deep.cfg", workers=6, timeout=1500)
     if r.violation:
@@ -191,53 +195,67 @@ def run(pid, tier, replay):
     if replay:
         return do_replay(chk, pid, obj, replay)
     quick = chk.quick
-    model_check(chk, pid)
 
-    # spec -> impl: TLC-enumerated histories
-    t0 = time.time()
-    cases = chk.path("cases.ndjson")
-    n_all = n_cov = 0
-    with open(cases, "w") as out:
-        for name, base in (("all", 0), ("cover", 500000)):
+    # the three phases are independent; run them side by side (results are merged on this thread)
+    def enum_phase():
+        # spec -> impl: TLC-enumerated histories (both generators in parallel)
+        t0 = time.time()
+
+        def gen(name):
             part = chk.path("gen_%s.ndjson" % name)
             g, n = core.tlc_generate("gen/Gen_ObjTree.tla", "gen/Gen_ObjTree_%s_%s.cfg" % ("quick" if quick else "thorough", name),
-                                     part, timeout=3000)
-            chk.add_tlc(g)
-            for line in open(part):
-                c = json.loads(line)
-                c["id"] += base
-                out.write(json.dumps(c) + "\n")
-            if name == "all":
-                n_all = n
-            else:
-                n_cov = n
-    core.log("[%s] generated %d + %d histories in %.1fs" % (pid, n_all, n_cov, time.time() - t0))
-    t0 = time.time()
-    obs = chk.path("obs_enum.ndjson")
-    core.run_bin(obj, ["tree-replay", cases, obs])
-    core.log("[%s] replayed in %.1fs" % (pid, time.time() - t0))
-    t0 = time.time()
-    scen, done, devs, mism = validate(chk, obs, shards=6, workers=2)
+                                     part, timeout=3000, workers=4)
+            return part, g, n
+        with ThreadPoolExecutor(max_workers=2) as ex:
+            parts = list(ex.map(gen, ("all", "cover")))
+        cases = chk.path("cases.ndjson")
+        with open(cases, "w") as out:
+            for (part, g, n), base in zip(parts, (0, 500000)):
+                for line in open(part):
+                    c = json.loads(line)
+                    c["id"] += base
+                    out.write(json.dumps(c) + "\n")
+        core.log("[%s] generated %d + %d histories in %.1fs" % (pid, parts[0][2], parts[1][2], time.time() - t0))
+        t0 = time.time()
+        obs = chk.path("obs_enum.ndjson")
+        core.run_bin(obj, ["tree-replay", cases, obs])
+        core.log("[%s] replayed in %.1fs" % (pid, time.time() - t0))
+        t0 = time.time()
+        res = validate(chk, obs, shards=4 if quick else 12, workers=3 if quick else 2)
+        core.log("[%s] validated %d scenarios in %.1fs" % (pid, len(res[0]), time.time() - t0))
+        return parts, res
+
+    def rand_phase():
+        # impl -> spec: seeded random long histories
+        t0 = time.time()
+        robs = chk.path("obs_rand.ndjson")
+        nr, ln = (40, 150) if quick else (600, 200)
+        core.run_bin(obj, ["tree-rand", nr, ln, chk.seed, robs])
+        res = validate(chk, robs, shards=1 if quick else 8, workers=3 if quick else 2)
+        core.log("[%s] %d random histories of %d steps validated in %.1fs" % (pid, nr, ln, time.time() - t0))
+        return res
+
+    with ThreadPoolExecutor(max_workers=3) as ex:
+        f_mc = ex.submit(model_check, chk, pid)
+        f_en = ex.submit(enum_phase)
+        f_rd = ex.submit(rand_phase)
+        f_mc.result()
+        parts, (scen, done, devs, mism) = f_en.result()
+        rscen, rdone, rdevs, rmism = f_rd.result()
+    for _, g, _ in parts:
+        chk.add_tlc(g)
+    n_all, n_cov = parts[0][2], parts[1][2]
     drift = classify(chk, pid, scen, done, devs, mism)
-    core.log("[%s] validated %d scenarios in %.1fs" % (pid, len(scen), time.time() - t0))
     chk.add("enumerated_cases", n_all + n_cov)
     chk.cov["exhaustive"] = len(scen) == n_all + n_cov
     chk.cov["exhaustive_scope"] = "every at/remove history of length %d over 4 paths x 3 interfaces (%d), plus %d transition-cover histories" % (
         3 if quick else 4, n_all, n_cov)
     total = dict(scen)
     n_done = len(done)
-
-    # impl -> spec: seeded random long histories
-    t0 = time.time()
-    robs = chk.path("obs_rand.ndjson")
-    nr, ln = (40, 150) if quick else (600, 200)
-    core.run_bin(obj, ["tree-rand", nr, ln, chk.seed, robs])
-    scen, done, devs, mism = validate(chk, robs, shards=6, workers=2)
-    drift += classify(chk, pid, scen, done, devs, mism)
-    core.log("[%s] %d random histories of %d steps validated in %.1fs" % (pid, nr, ln, time.time() - t0))
-    total.update(scen)
-    n_done += len(done)
-    chk.add("random_cases", len(scen))
+    drift += classify(chk, pid, rscen, rdone, rdevs, rmism)
+    total.update(rscen)
+    n_done += len(rdone)
+    chk.add("random_cases", len(rscen))
 
     chk.add("traces_validated_against_impl", n_done)
     chk.cov["scenarios_stopped_at_unexplained_step"] = len(total) - n_done
